@@ -133,10 +133,11 @@ Fixpoint fr_run (st : rstate) (ms : list msg) : list (list (str * list fevent) *
   end.
 
 (* ---------- the receiving side: eventStreamHandler on a message event ---------- *)
-(* returns what is handed to Publisher.Publish and the retained store afterwards; nothing
-   is appended to any peer queue (Publish does not run OnMsgArrived) *)
+(* returns what is handed to Publisher.Publish and the retained store afterwards (a retained
+   message with an empty payload clears the topic, as publishHandler does for a local
+   PUBLISH); nothing is appended to any peer queue (Publish does not run OnMsgArrived) *)
 Definition fr_receive (m : msg) (ret : rdb) : msg * rdb :=
-  (m, if m_retained m then rdb_step ret (RAdd m) else ret).
+  (m, if m_retained m then rdb_step ret (retain_op m) else ret).
 
 Fixpoint fr_receive_all (ms : list msg) (ret : rdb) : list (msg * list msg) :=
   match ms with
